@@ -231,8 +231,10 @@ def showobs(o):
 
 
 def random_list(r, n):
-    secs = ["", "A", "B", "C", "D d"]
-    keys = ["x", "y", "z", "k1", "k2", "key six"]
+    # (section names: also one whose djb2 hash equals that of the library's "no section" marker - the marker text itself IS the library's spelling of "no section", also for the setters, and stays out; keys that
+    # are prefixes of each other)
+    secs = ["", "A", "B", "C", "D d", "_nooD_"]
+    keys = ["x", "y", "z", "k1", "k2", "key six", "k12", "xx"]
     if n > 28:          # long lists (dozens of entries per side: indices beyond 31 / 63) need more distinct keys
         keys = keys + ["q%d" % i for i in range(40)]
     out = []
